@@ -22,6 +22,53 @@ claim(
     'DESIGN.md section 5, C19',
 )
 
+claim(
+    'C01', 'other', 'guard dominance over check+apply paths; exact symbolic matrix identities (linear-form interpretation + polynomial normal form); table agreement; driver structure',
+    'Per-rule soundness and driver structure, decided from source: every deletion rule is dominated by a pair-identity (or crosswise '
+    'parameter-equality) guard plus its frozen side condition (unique_indices for P P^T); the rotation/HWP/polariser rules are proved as '
+    'Mueller-matrix identities for all angles and all four Stokes kinds with matrices derived from the mv source of the same tree; block rules '
+    'match the block-matrix product table with the left block multiplied on the left; the driver reduces operands first, captures the input '
+    'structure before deleting, splices exactly the matched pair, returns an identity on the captured structure when everything cancels and '
+    'swallows exactly NoReduction; asserts in rules are implied by the declared classes. By induction over rewrite steps this is what '
+    '"any rule, any context, any order" needs; sampled chains cannot give it. NOT decided: termination of the scan, numeric multiplicities.',
+    'Trusted: the frozen linear-algebra table (A^-1 A = I, P P^T = I iff no duplicate selection, reshapes/moveaxis are permutations, '
+    'block-product layouts), element-wise jnp arithmetic, the polynomial normaliser. A new rule matching no schema is ANALYSIS-INCOMPLETE.',
+    'DESIGN.md section 5, C01',
+)
+
+claim(
+    'C02', 'other', 'path enumeration with guard facts over every arithmetic dunder; operand-role, operand-order and scalar-form term rules',
+    'Every path of every arithmetic dunder of the operator classes: a path that returns an operator is dominated by the structure guard with '
+    'the right operand roles (IN(self) vs OUT(other) for @, mirrored for the reflected form, IN-IN and OUT-OUT for sums), or delegates to a dunder '
+    'that is, or sits under an operand-identity guard; operand lists are in product order and contain every operand once; NotImplemented '
+    'hand-overs have a reflected method; scalar forms are k, 1/k, -1 on OUT(self) under a scalar-shape guard and without lossy dtype cast; '
+    'shortcuts (scalar merge, A A^-1, identity absorption); NumPy opt-out; composites apply last-to-first / sum all leaves. NOT decided: numeric '
+    'equality with the dense product (C04 decides linearity).',
+    'Trusted: Python binary-operator dispatch, NumPy __array_ufunc__ = None protocol.',
+    'DESIGN.md section 5, C02',
+)
+
+claim(
+    'C04', 'other', 'abstract interpretation of every mv over a kind/linearity lattice (whitelisted linear primitives); schema matching of as_matrix overrides',
+    'Linearity is decided for all inputs and parameters: each of the concrete mv methods (with the helpers, kernels and closures they reach, '
+    'fori_loop carries by fixpoint, reduce without initializer modelled faithfully) evaluates to a pytree of arrays linear in the input - no added '
+    'constant, no product of input-dependent values, no non-linear primitive, no non-array leaf, no truncating cast. Every as_matrix override is '
+    'matched against the dense-form schema of its class over the same leaves mv uses; the generic builder is checked clause by clause (unit entry, '
+    'leaf/element order, row order, column counter). NOT decided: numeric equality of an override with the generic form.',
+    'Trusted: the linear-primitive whitelist (listed in evidence), jax.linear_transpose / lineax.linear_solve linear in the vector argument.',
+    'DESIGN.md section 5, C04',
+)
+
+claim(
+    'C15', 'proof', 'exact linear-form interpretation of the mv sources + trigonometric polynomial normal form (no execution, no solver)',
+    'All Mueller matrices are derived from source for symbolic angles and compared with the stated ones for each of the four Stokes kinds: '
+    'H = diag(+,+,-,-), R(a) rotates (Q,U) by 2a, R^T = R(-a) = transpose, P = (I+Q)/2 restricted; R(a)R(b) = R(a+b), R^T R = I, R(a)H = H R(-a), '
+    'P H = P; the three factories equal R(-a) H R(a), P R(a), R(a) on one structure of the requested kind. Exact arithmetic, all angles at once.',
+    'Trusted: jnp arithmetic/cos/sin are element-wise (scalar identities lift pointwise to angle arrays); Stokes constructor order = field order; '
+    'the normaliser sa/poly.py (re-checked by a second normaliser in the thorough tier). Floating-point rounding is not decided.',
+    'DESIGN.md section 5, C15',
+)
+
 _WIP = 'check under construction in this session; not claimed until its rules run clean on the tree'
 
 
